@@ -446,6 +446,7 @@ func init() {
 		p.Qual = true
 		probes = append(probes, p)
 	}
+	probes = append(probes, kindCases()...)
 }
 
 // probes are fixed cases at the start of every case list: one minimal
@@ -644,6 +645,10 @@ type failure struct {
 func exec(x *fw.Ctx, c Case) {
 	if strings.HasPrefix(c.Kind, "reeval") {
 		execReeval(x, c)
+		return
+	}
+	if c.Kind == "kinds" {
+		execKinds(x, c)
 		return
 	}
 	qualOn = c.Qual
